@@ -270,3 +270,23 @@ add('C11.setdefault_early', 'C11', [(RM, _ADD_OLD, _ADD_REFACTORED.replace("    
     ('C11.R4', 'C11.R5'), 'scope entry created before the support check: a refused add reserves the scope position (seeded a2-C11)')
 add('C11.resolution_caches', 'C11', (RM, "    return result_key, result_config\n", "    self._last_resolution = (target_op_name, scope_name, result_key)\n    return result_key, result_config\n"),
     'C11.R1', 'resolution writes object state')
+
+# ---------------------------------------------------------------------- C10
+add('C10.f2', 'C10', (CAL, "        scope += \";\"  # Split names, same as ParamsGenerator._get_op_scope.\n", ""), 'C10.R1', 'defect F2 returns: calibration scope lacks the separator', control=True)
+add('C10.pg_sep', 'C10', ('params_generator.py', "        scope += ';'  # Split names.", "        scope += ','  # Split names."), 'C10.R1', 'quantization scope uses another separator')
+add('C10.scope_skip_guard', 'C10', (CAL, "      if output_tensor_idx != -1:\n        output_tensor = subgraph_tensors[output_tensor_idx]", "      if output_tensor_idx > 0:\n        output_tensor = subgraph_tensors[output_tensor_idx]"),
+    'C10.R1', 'calibration scope skips tensor 0')
+add('C10.f3', 'C10', (CAL, "              self._tfl_interpreter, subgraph_index\n          )\n      )", "              self._tfl_interpreter\n          )\n      )"), 'C10.R3', 'defect F3 returns: tensor contents read from subgraph 0', control=True)
+add('C10.f3_walk_all', 'C10', (CAL, "      subgraph = self._flatbuffer_model.subgraphs[subgraph_index]\n", "      subgraph = self._flatbuffer_model.subgraphs[0]\n"), 'C10.R3', 'operators of subgraph 0 walked whatever the signature')
+add('C10.f10', 'C10', ('params_generator.py', "    if model_recipe_manager.need_calibration() and model_qsvs is None:", "    if model_recipe_manager.need_calibration() and not model_qsvs:"),
+    'C10.R5', 'defect F10 returns: an empty calibration result is treated as missing', control=True)
+add('C10.io_in_init', 'C10', [(CAL, "      # Add input/output operators to the subgraph.\n      subgraph.operators += (\n          tfl_flatbuffer_utils.get_subgraph_input_output_operators(subgraph)\n      )\n      for op in subgraph.operators:\n        if isinstance(op, qtyping.IOOperator):",
+    "      for op in subgraph.operators:\n        if isinstance(op, qtyping.IOOperator):"),
+    (CAL, "        for tensor_name, qsv in op_qsvs.items():\n          if tensor_name not in self._model_qsvs:\n            self._model_qsvs[tensor_name] = qsv\n",
+     "        for tensor_name, qsv in op_qsvs.items():\n          if tensor_name not in self._model_qsvs:\n            self._model_qsvs[tensor_name] = qsv\n      subgraph.operators += (\n          tfl_flatbuffer_utils.get_subgraph_input_output_operators(subgraph)\n      )\n")],
+    'C10.R2', 'virtual IO operators attached only when QSVs are initialised (skipped on resume) (seeded a1-C09 / a2-C10)', allow_error=True)
+add('C10.need_calib', 'C10', (RM, "          == qtyping.ComputePrecision.INTEGER\n          and 'activation_tensor_config' in op_quant_config['op_config']", "          == qtyping.ComputePrecision.INTEGER"),
+    'C10.R4', 'need_calibration() also true for dynamic-range recipes')
+add('C10.init_extra_skip', 'C10', (CAL, "        op_key = tfl_flatbuffer_utils.TFL_OP_CODE_TO_NAME[op_code]\n        # Step1: query",
+    "        op_key = tfl_flatbuffer_utils.TFL_OP_CODE_TO_NAME[op_code]\n        if op_key == qtyping.TFLOperationName.BATCH_MATMUL:\n          continue\n        # Step1: query"),
+    'C10.R2', 'one selection loop skips an operator kind the others do not')
